@@ -38,9 +38,8 @@ ASSUMPTIONS = [
     "the bin factor is judged as an int, a numpy integer and a float holding a whole number; for a float a "
     "rounding error away from a whole number either the block sums of the nearest whole number or an exception "
     "is accepted (never another result)",
-    "binning of narrow integer dtypes is judged on counts whose block sums fit the input dtype (what the result "
-    "dtype is, is not part of the statement: only the values are compared); block sums beyond the range of the "
-    "input dtype are NOT judged yet (reported separately for triage, see the note binImgs_uint8_200_by_2)",
+    "binning of narrow integer dtypes: only the values are compared (what the result dtype is, is not part of the "
+    "statement); block sums beyond the range of the input dtype are judged too (exact in a 64-bit integer)",
     "for a rectangular target either assignment of newSize to the axes is accepted (the statement does not fix "
     "it; zoom_rbs returns shape newSize[::-1]); values are checked for the orientation the shape reveals",
     "when `zoom` raises NotImplementedError (scipy without interp2d) this is reported once by the clause "
@@ -806,12 +805,23 @@ def _large(p):
     got = numpy.asarray(interpolation.binImgs(st4.copy(), 2))
     o.check("block_sums_exact_large", got.shape == (10, 13, 10, 6) and numpy.array_equal(got, imgops.block_sum(st4, 2)), sub="stack10x13")
     o.stat("lib_calls", 5)
-    # observation for triage, NOT judged (see ASSUMPTIONS): block sums beyond the range of a narrow input dtype
-    try:
-        v = numpy.asarray(interpolation.binImgs(numpy.full((4, 4), 200, dtype=numpy.uint8), 2))
-        o.note("binImgs_uint8_200_by_2", "%s (dtype %s; the block sum is 800)" % (v.reshape(-1)[0], v.dtype))
-    except Exception as e:
-        o.note("binImgs_uint8_200_by_2", type(e).__name__)
+    # block sums beyond the range of a narrow input dtype ("exactly the n x n block sums": the values, whatever the
+    # result dtype).  Judged since the repair 0ef4841 of /repo (uint8 200 binned by 2 had come back as 32).
+    for dt, val in (("uint8", 200), ("uint8", 255), ("int8", 127), ("int8", -128), ("uint16", 60000), ("int16", -30000),
+                    ("uint32", 2 ** 32 - 1), ("int32", -2 ** 31), ("bool", 1)):
+        for shp, n_ in (((4, 4), 2), ((6, 9), 3), ((3, 4, 4), 2), ((2, 2, 8, 4), 4)):
+            x = numpy.full(shp, val, dtype=dt)
+            x[..., 0, 0] = 0 if dt != "bool" else False
+            want = imgops.block_sum(x.astype(object) if False else x.astype(numpy.int64), n_)
+            try:
+                got = numpy.asarray(interpolation.binImgs(x.copy(), n_))
+                ok = got.shape == want.shape and numpy.array_equal(got.astype(numpy.float64), want.astype(numpy.float64))
+                o.check("block_sums_exact_beyond_the_input_dtype", ok, sub="%s:%s:%s:n=%d" % (dt, val, "x".join(map(str, shp)), n_),
+                        detail=None if ok else {"got": got.reshape(-1)[:4], "want": want.reshape(-1)[:4], "dtype": str(got.dtype)})
+            except Exception as e:
+                o.check("block_sums_exact_beyond_the_input_dtype", False, sub="%s:%s:%s:n=%d" % (dt, val, "x".join(map(str, shp)), n_),
+                        detail="%s: %s" % (type(e).__name__, e))
+            o.stat("lib_calls", 1)
     dm = _Diam()
     for n in (130, 258):
         c = numpy.full((n, n), 3.25)
